@@ -33,7 +33,9 @@ RULE = ("one execution = [pollution prefix Q;] seed(s); program P on fresh fixtu
         "length 2 for 2 seeds (1 and 2^32-1); each program compared with its reference under every pollution prefix "
         "(length <= 2: every core call + 12 direct manipulations of the two streams; length 3: the program's own "
         "calls + the 12; all-calls family: 4 representative calls + own + the 12), in a second identical run, live from "
-        "the restored parent state, with the objects built before seeding, on copies of those objects taken before "
+        "the restored parent state, repeated after re-seeding on the SAME fixtures and objects (argument arrays and "
+        "configurations in the exact / multiple / ragged tiling cases), with every input array and array attribute "
+        "of the fixture objects required untouched after each call, with the objects built before seeding, on copies of those objects taken before "
         "seeding (copy.copy for every object, plus every copy operation the class itself defines: __deepcopy__, "
         "copy(), deepcopy()), and under 2 further entropy / 1 further "
         "clock variants when entropy / the clock was requested; isolation: each discovered rng-accepting component x "
@@ -107,7 +109,7 @@ def q_names(s, prog_names, ext):
 
 class Exec:
     __slots__ = ("after_seed", "outs", "states", "pairs", "counters", "records", "clock_sites", "pre_seed", "rec_at",
-                 "seed_records")
+                 "seed_records", "mutated", "round2")
 
 
 def execute(prog, s, v, Q=None, mode="fresh", entropy=0, clock=0, start=None):
@@ -147,16 +149,40 @@ def execute(prog, s, v, Q=None, mode="fresh", entropy=0, clock=0, start=None):
             todo = [(calls[-1], objs[-1])]
         ex.after_seed = E.pair_parts(E.get_pair())
         ex.seed_records = list(env.records)           # entropy requested by seed() itself
-        ex.outs, ex.states, ex.pairs, ex.counters, ex.rec_at = [], [], [], [], []
+        ex.outs, ex.states, ex.pairs, ex.counters, ex.rec_at, ex.mutated = [], [], [], [], [], []
+        ex.round2 = None
+        kept = []
+        seen_bad = set()
         for c, o in todo:
             n0 = len(env.records)
-            out = c.use(fx, o if o is not None else c.make(fx))
+            if mode == "repeat":
+                out, k = c.round1(fx)
+                kept.append(k)
+            else:
+                if o is None:
+                    o = c.make(fx)
+                if o is not None:
+                    fx.own(type(o).__name__, o)          # its array attributes are inputs of the call, too
+                out = c.use(fx, o)
             ex.outs.append(E.dig(E.ser(out)))
             pair = E.get_pair()
             ex.pairs.append(pair)
             ex.states.append(E.pair_parts(pair))
             ex.counters.append((env._n_entropy, env._n_clock))
             ex.rec_at.append(list(env.records[n0:]))
+            bad = [b for b in fx.verify() if b not in seen_bad]       # inputs-untouched oracle
+            seen_bad.update(bad)
+            ex.mutated.append(bad)
+        if mode == "repeat":
+            # the same stochastic calls once more after re-seeding, on the SAME fixtures (argument arrays, genomes,
+            # problems) and the same objects
+            env.reset_counters()
+            prng.seed(s)
+            outs2, states2 = [], []
+            for c, k in zip(calls, kept):
+                outs2.append(E.dig(E.ser(c.round2(fx, k))))
+                states2.append(E.pair_parts(E.get_pair()))
+            ex.round2 = (E.pair_parts(E.get_pair()) if not calls else None, outs2, states2)
         env.stop_recording()
         ex.records = list(env.records)
         ex.clock_sites = sorted(env.clock_sites)
@@ -213,6 +239,12 @@ def check_node(ctx, s, prog, v, ext=False, parent=None):
             ctx.traces += 1
         return ok
 
+    # (0) every stochastic call leaves its inputs untouched (argument arrays, array attributes of fixture objects)
+    for c, bad in zip(calls, ref.mutated):
+        for b in bad:
+            ctx.violation(f"{c.site}:input-mutated:{b}",
+                          f"{c.name} (program {list(prog)}, seed {s}) changed its input {b} in place", dict(base, step="inputs"))
+
     # (1) second reference run: the reference itself must be reproducible in this process -------------------
     def again():
         r2 = execute(prog, s, v)
@@ -257,6 +289,23 @@ def check_node(ctx, s, prog, v, ext=False, parent=None):
         ctx.transitions += len(prog) + 1
         ctx.count("persistent-mode")
         agree("persistent", persistent, "persistent")
+
+    # (4a) the same calls repeated after re-seeding on the SAME fixtures and objects -----------------------------
+    def repeated():
+        r = execute(prog, s, v, mode="repeat")
+        _compare(ref, r, calls, "round 1 of the repeat run", None)
+        _, outs2, states2 = r.round2
+        k = _first_diff(list(zip(r.outs, r.states)), list(zip(outs2, states2)))
+        if k is not None:
+            what = "output" if r.outs[k] != outs2[k] else "generator state after the call"
+            raise Violation(f"{calls[k].site}:repeat-on-same-object-after-reseeding-differs",
+                            f"seed({s}); {list(prog)} executed twice on the same fixtures/objects: {what} of call #{k} "
+                            f"({calls[k].name}) differs between the two seeded rounds (state leaked into the object or "
+                            f"its argument arrays)")
+    ctx.evaluations += 1
+    ctx.transitions += 2 * len(prog)
+    ctx.count("repeat-mode")
+    agree("repeat", repeated, "repeat")
 
     # (4b) copies of the stochastic objects, taken before the re-seeding -----------------------------------------
     kinds = []
@@ -432,12 +481,14 @@ def iso_run(fn, v, G, kind, gseed, entropy=0, clock=0, blame=False):
         raised = None
         try:
             out = fn(fx, rng)
+            mutated = fx.verify()
         except Exception as e:      # whether this configuration can be driven at all is not C08's question; a call that
             out = ("raised", type(e).__name__)      # raises is compared like any other outcome and flagged as uncovered
             raised = f"{type(e).__name__}: {str(e)[:80]}"
+            mutated = []
         env.stop_recording()
         after = E.pair_parts(E.get_pair())
-        return dict(out=E.dig(E.ser(out)), gen=E.dig(E.gen_state(rng)), drew=(E.gen_state(rng) != g0), raised=raised,
+        return dict(out=E.dig(E.ser(out)), gen=E.dig(E.gen_state(rng)), drew=(E.gen_state(rng) != g0), raised=raised, mutated=mutated,
                     py_moved=before[0] != after[0], np_moved=before[1] != after[1],
                     records=list(env.records), clock_sites=sorted(env.clock_sites))
 
@@ -487,6 +538,10 @@ def check_iso(ctx, fullname, v, tier):
                     ctx.flag("iso-explicit-generator-untouched:" + short)
                 moved = any(r["py_moved"] or r["np_moved"] for r in runs)
                 bad = False
+                for b in dict.fromkeys(x for r in runs for x in r["mutated"]):
+                    bad = True
+                    ctx.violation(f"{site}:input-mutated:{b}", f"{fullname} called with an explicit {kind} changed its "
+                                  f"input {b} in place", case)
                 if moved:
                     bad = True
                     if "sites" not in blamed:       # union over the global states: GA trajectories differ
@@ -571,6 +626,33 @@ def iso_copies(ctx, fullname, short, site, fn, v, G, kind, gseed, case):
     ref1 = guarded(lambda fx, rng, o: [fn.call(fx, o)])
     if ref1[1] is None:
         return                                   # the plain call raises here: nothing to compare (flagged elsewhere)
+    # (R) the same object called twice with the caller's generator put back to the same state: identical results
+    #     (nothing of the first call may leak into the object or its argument arrays)
+    if not fn.relabels:
+        def twice(fx, rng, o):
+            # everything the call may legitimately (or, for the known findings, illegitimately but reproducibly)
+            # depend on is put back: the caller's generator, the global pair, the harness' entropy / clock counters
+            st = rng.get_state(legacy=False) if isinstance(rng, numpy.random.RandomState) else rng.bit_generator.state
+            pair = E.get_pair()
+            E.ENV.reset_counters()
+            a = fn.recall(fx, o)
+            if isinstance(rng, numpy.random.RandomState):
+                rng.set_state(st)
+            else:
+                rng.bit_generator.state = st
+            E.set_pair(pair)
+            E.ENV.reset_counters()
+            return [a, fn.recall(fx, o)]
+        ctx.evaluations += 1
+        ctx.transitions += 2
+        ctx.count("iso-repeat-runs")
+        rr = guarded(twice)
+        if rr[1] is not None and rr[0][0] != rr[0][1]:
+            ctx.violation(f"{site}:explicit-rng:repeat-on-same-object-differs",
+                          f"{fullname} built with the caller's own {kind}: the same call on the same object with the "
+                          f"generator restored to the same state gives a different result", case)
+        elif rr[1] is not None:
+            ctx.traces += 1
     kinds = S.copy_kinds(ref1[4])
     # informational: python's default deepcopy of a class without its own __deepcopy__
     if "copy.deepcopy" not in kinds:
@@ -774,6 +856,7 @@ def finalize(ctx, tier, seed):
         nx = len(all_names()) ** 2 - len(core_names()) ** 2
         assert ctx.counters.get("program-len-2", 0) >= N_SEEDS * len(core_names()) ** 2 + len(EXT_L2_SEEDS) * nx
     assert ctx.counters.get("persistent-mode", 0) > 0
+    assert ctx.counters.get("repeat-mode", 0) > 0 and ctx.counters.get("iso-repeat-runs", 0) > 0
     for kd in S.COPY_KINDS:
         assert ctx.counters.get("copy-mode:" + kd, 0) > 0, f"copy kind {kd} never exercised in a program"
         assert "iso-copy:" + kd in ctx.flags, f"copy kind {kd} never exercised with an explicit generator"
